@@ -36,4 +36,11 @@ restate C01_vm_refines_sld_cut_canon := vm_refines_sld_cut_canon
     the side condition `CallsOK` on the VM's run).  A cut inside `call/1` is local. -/
 restate C01_vm_refines_sld_call := vm_refines_sld_call
 
+/- **C01_vm_refines_sld_ctl** (stage 3, growing): `CtlFrag` = `CutFrag` + the control constructs as goals
+    (clause bodies, query, called goals): `call(G)`, if-then-else `(C -> T ; E)`, if-then `(C -> T)`
+    — executed by the VM through the clauses of bootstrap.pl (`If -> Then ; _ :- If, !, Then.`,
+    `_ -> _ ; Else :- !, Else.`, `If -> Then :- If, !, Then.`), by the reference as a branch with a
+    cut local to the construct.  Side condition `CallsOK` as for `call/1`. -/
+restate C01_vm_refines_sld_ctl := vm_refines_sld_ctl
+
 end PrologVerif.C01
